@@ -29,8 +29,8 @@ REQUIRED = {"eval:int:expression": 500, "eval:float:expression": 500, "eval:miss
             "eval:equation:true": 20, "eval:equation:false": 20, "evalop:int:Power": 100, "evalop:int:Factorial": 20, "evalop:float:Divide": 100,
             "evalop:int:Sgn": 10, "evalop:float:Power": 50, "eval:int:bigresult": 20, "eval:same-dict-updated-in-place": 500, "eval:context-dict-subclass": 200}
 
-INT_VALUES = [0, 1, -1, 2, 3, -2, 5, 7, 10, -7, 12, 2 ** 31, 2 ** 32, 2 ** 63 - 1, 2 ** 63, -(2 ** 63) - 1, 10 ** 30, 2 ** 64 + 1, 99991, -65537, 46341, 3037000500]
-FLOAT_VALUES = [0.5, 2.5, -0.25, 1.5, 0.1, 3.14, 100.125, 1e-3, 12.75, -7.5, 1e6, 2.0, 0.0, 1e10]
+INT_VALUES = [0, 1, -1, 2, 3, -2, 5, 7, 10, -7, 12, True, False, 2 ** 31, 2 ** 32, 2 ** 63 - 1, 2 ** 63, -(2 ** 63) - 1, 10 ** 30, 2 ** 64 + 1, 99991, -65537, 46341, 3037000500]
+FLOAT_VALUES = [0.5, 2.5, -0.25, 1.5, 0.1, 3.14, 100.125, 1e-3, 12.75, -7.5, 1e6, 2.0, 0.0, 1e10, -0.0, 5e-324, 1.7976931348623157e308]
 
 
 def int_text(rng, depth=0, big=True):
@@ -148,7 +148,9 @@ def run(rec, cfg):
              # exact integers of several thousand digits (beyond the interpreter's int->str digit limit), alone and
              # as the common value of TRUE equations, and as the two values of false ones
              "2000! = 2000 * 1999!", "2^15000 = 4^7500", "10^4300 = 10 * 10^4299", "10^4299 = 10 * 10^4298", "2^15000", "1500! - 1500 * 1499!",
-             "2^15000 = 4^7500 + 1", "(x + 1)^6000 = (x + 1)^3000 * (x + 1)^3000", "x^5000 * x = x^5001", "3^9100 - 3^9100 + x", "1600! = 1600!"]
+             "2^15000 = 4^7500 + 1", "(x + 1)^6000 = (x + 1)^3000 * (x + 1)^3000", "x^5000 * x = x^5001", "3^9100 - 3^9100 + x", "1600! = 1600!",
+             # a zero sign (and other exact-zero sub-results) feeding powers / products beyond 64 bits
+             "(sgn(x - x) + 3)^50", "sgn(y - y) * 2^70 + 2^70", "(sgn(0) + 2)^64 * 3", "(0 * x + 3)^41", "(x - x + 7)^30 * 10^20", "sgn(2 - 2) + 2^64"]
     for i in range(n):
         if cfg.out_of_time():
             rec.truncated = True
